@@ -854,6 +854,24 @@ impl Callbacks for Cb {
             out.push(',');
             cx.body(did, body, &mut out);
             out.push('}');
+            // promoted constants of this body (e.g. `&PrivilegeType::Select(None)`, `&"ADMIN"`)
+            let proms = tcx.promoted_mir(did);
+            for (pi, pb) in proms.iter_enumerated() {
+                out.push_str(",{\"path\":");
+                esc(&format!("{}::promoted[{}]", cx.path(did), pi.as_u32()), &mut out);
+                out.push_str(",\"nice\":");
+                esc(&format!("{}::promoted[{}]", cx.nice(did), pi.as_u32()), &mut out);
+                out.push_str(",\"dk\":\"Promoted\",\"file\":");
+                esc(&cx.file(sp), &mut out);
+                let _ = write!(out, ",\"line\":{}", cx.line(sp).0);
+                out.push_str(",\"root\":");
+                esc(&cx.path(did), &mut out);
+                out.push_str(",\"parent\":");
+                esc(&cx.path(did), &mut out);
+                out.push(',');
+                cx.body(did, pb, &mut out);
+                out.push('}');
+            }
         }
         out.push_str("]}");
 
